@@ -50,21 +50,25 @@ pub fn gen_case(seed: u64) -> Case {
     } else {
         Entry::Tree
     };
+    // typed entry points (views of the one evaluator: same effects, projected result)
+    let typed = if conf.percent(30) { 1 + conf.usize_below(7) } else { 0 };
     Case {
         program,
         form,
         setup,
         kind,
         entry,
+        typed,
     }
 }
 
 fn signature(case: &Case, f: &Finding) -> String {
     format!(
-        "{}|{}|{}|{}|faults={:?}|{}",
+        "{}|{}|{}|{}|{}|faults={:?}|{}",
         f.subcheck,
         case.form.name(),
         case.kind.name(),
+        crate::env::TYPED_ENTRIES[case.typed % 8],
         case.program.render(),
         f.faults,
         f.class
@@ -122,7 +126,7 @@ pub fn run_one(prop: Prop, batch_seed: u64, run_index: u64, out: &mut WorkerOut,
     h.u64(case.hash());
     h.u64(out.stats.get("evaluations_real") - before);
     if let Built::Tree(tree, _) = build(&case) {
-        if let Ok(r) = crate::refint::run_ref(&tree, &case.setup, case.kind, false, &[], d) {
+        if let Ok(r) = crate::refint::run_ref(&tree, &case.setup, case.kind, false, 0, &[], d) {
             h.str(&r.result);
             for e in &r.log {
                 h.str(&e.render());
@@ -135,6 +139,7 @@ pub fn run_one(prop: Prop, batch_seed: u64, run_index: u64, out: &mut WorkerOut,
                 Entry::Tree => "entry.tree",
                 Entry::Str => "entry.string",
             });
+            out.stats.inc(&format!("typed_entry.{}", crate::env::TYPED_ENTRIES[case.typed % 8]));
             let depth = case.program.depth();
             out.stats.inc(if depth >= 20 {
                 "depth.20plus"
@@ -296,6 +301,11 @@ pub fn minimise(replay: &Json) -> Json {
             c.entry = Entry::Tree;
             candidates.push(c);
         }
+        if case.typed != 0 {
+            let mut c = case.clone();
+            c.typed = 0;
+            candidates.push(c);
+        }
         if case.form == Form::Parsed {
             let mut c = case.clone();
             c.form = Form::Assembled { wrap: true };
@@ -321,7 +331,7 @@ pub fn minimise(replay: &Json) -> Json {
                 delegate: &mut d,
             };
             if let Some(f) = check_case(&cand, prop, &mut cx, None, Some(&best.faults)) {
-                if same(&f, &best) && (cand.weight() < case.weight() || f.faults.len() < best.faults.len() || cand.form != case.form || cand.entry != case.entry) {
+                if same(&f, &best) && (cand.weight() < case.weight() || f.faults.len() < best.faults.len() || cand.form != case.form || cand.entry != case.entry || cand.typed != case.typed) {
                     case = cand;
                     best = f;
                     progress = true;
@@ -461,6 +471,7 @@ pub fn check(prop: Prop, tier: &str, exe: &Path) -> i32 {
         .with("tree_forms", s.group("form"))
         .with("context_kinds", s.group("context_kind"))
         .with("entries", s.group("entry"))
+        .with("typed_entries", s.group("typed_entry"))
         .with("program_depth", s.group("depth"))
         .with("workload_failures", s.group("workload_failures"))
         .with("c11", s.group("c11"))
